@@ -9,6 +9,38 @@ from props.c15_learners import Scripted, make_learner, dec, enc, freeze, is_batc
 
 LCG_A, LCG_C, LCG_M = 116646453, 9, 2 ** 30
 HINTS = ("action", "action_prob", "pmf")
+# `Learner.learn(self, context, action, reward, probability, **kwargs)`: the interface itself cannot pass a kwarg with one of
+# these names (python raises "multiple values for argument" at the learner's own learn) - such learners are not in the quantifier
+LEARN_PARAMS = ("self", "context", "action", "reward", "probability")
+# names of parameters / locals met on the way from predict to learn; a kwargs key may be called any of them (round f)
+PATH_NAMES_STATIC = ("key", "method", "args", "kwargs", "has_out", "actions", "pred", "self", "context", "action", "reward", "probability")
+_PATH_NAMES = None
+
+
+def path_names():
+    """kwargs key names that collide with a parameter name of some function on the delivery path of the code under test
+    (read from the signatures at run time, so renamed / added parameters are followed), without the names the Learner
+    interface itself reserves (LEARN_PARAMS) and the hint names."""
+    global _PATH_NAMES
+    if _PATH_NAMES is None:
+        import inspect
+        names = list(PATH_NAMES_STATIC)
+        try:
+            from coba.safety import SafeLearner
+            from coba.evaluators import SequentialCB
+            from coba.primitives import Learner
+            for owner in (SafeLearner, SequentialCB, Learner):
+                for _, f in sorted(vars(owner).items()):
+                    if inspect.isfunction(f):
+                        names += [p for p in inspect.signature(f).parameters]
+        except Exception:
+            pass
+        seen = []
+        for nm in names:
+            if nm not in seen and nm not in LEARN_PARAMS and nm not in HINTS:
+                seen.append(nm)
+        _PATH_NAMES = seen
+    return _PATH_NAMES
 FMTS = ["A", "AP", "PM", "dA", "dAP", "dPM"]
 
 
@@ -82,6 +114,8 @@ def in_quantifier(case):
                 return False, "kwargs keys differ between the rows of a call"
             if kw and any(dec(k) in HINTS for k, _ in row["kwargs"]):
                 return False, "kwargs key named like a hint"
+            if kw and any(dec(k) in LEARN_PARAMS for k, _ in row["kwargs"]):
+                return False, "kwargs key named like one of learn's own parameters"
             if len(row["pmf"]) != K:
                 return False, "PMF not over the actions"
             if fmt in ("PM", "dPM") and not case.get("weird"):
@@ -827,6 +861,12 @@ def gen_case(rng, stress=0.3):
     K = rng.wchoice([(2, 1), (4, 2), (4, 3), (2, 4), (1, 5)])
     ncalls = rng.wchoice([(3, 1), (3, 2), (2, 3)])
     keys = rng.sample(["k", "info", "z", "n_obs", "a"] + (["pmf"] if rng.chance(0.1) else []), rng.wchoice([(1, 0), (3, 1), (2, 2), (1, 3)])) if kw else []
+    if kw and rng.chance(0.2):
+        # kwargs keys named like the parameters of the functions they travel through (_safe_call's key / method / args / ...)
+        pool = path_names()
+        keys = rng.sample(pool, min(len(pool), rng.wchoice([(3, 1), (2, 2), (1, 4)])))
+        if rng.chance(0.3):
+            keys = keys + ["k"]
     pmf_style = rng.wchoice([(3, "onehot_int"), (1, "onehot_flt"), (1, "mixed01"), (4, "dyadic"), (3, "near1")])
     if rng.chance(stress):
         # the heart of the disambiguation: answers whose items are 0/1-like next to action sets containing 0/1-like values
@@ -1088,6 +1128,7 @@ class C15(Property):
                    "kwargs of the rows of one batch have the same key set, in any order; kwargs keys are not named action/action_prob/pmf",
                    "the kwargs payload is any abc.Mapping (dict, OrderedDict/defaultdict/dict subclasses, MappingProxyType, a plain Mapping class, ChainMap); "
                    "the model's dict stands for Mapping; a non-dict Mapping after a column-major hinted answer is finding C15-F5 ((A) there only once fixes/C15-colhint-kwargs-mapping.diff is in)",
+                   "kwargs keys named self / context / action / reward / probability cannot be passed through `Learner.learn(context, action, reward, probability, **kwargs)` at all (python's own 'multiple values'): outside the quantifier; every other key name, also those of internal parameters (key, method, args, kwargs, has_out, ...), is delivered unchanged",
                    "un-hinted column-major answers: not a single column for a single-row first batch, PMFs over >= 2 actions (design limits, see ambiguity_characterised and notes)"]
     partial_theorems = {"format_roundtrip_pinned_partial": "the pinned commit violates the property in the regions of the recorded defects C15-F1..F4 "
                         "(excluded by the fx=Fixes.none disjuncts of firstRowOK / dictRowsOK / colParseOK and, for C15-F2, by the float-copy premise of "
@@ -1583,6 +1624,21 @@ def corpus_cases():
             rows = [row(nan_acts, (i + 2) % 3, i) for i in range(1 if mode == "not" else 2)]
             cs.append({"seed": 1, "fmt": fmt, "kw": False, "layout": "single" if mode == "not" else mode, "batch": mode != "not",
                        "calls": [rows, rows, rows[:1]]})
+    # round f: kwargs keys named like the parameters of the functions on the delivery path (`_safe_call(key, method, args,
+    # kwargs, has_out)` ...): learn must receive them unchanged, one at a time and all together, single and batched
+    names = path_names()
+    groups = [[nm] for nm in names] + [names[:5], ["k"] + names[:2]]
+    for keys in groups:
+        for fmt in ("A", "AP", "PM", "dA"):
+            for mode in ("not", "single", "row", "col"):
+                for lb in ((None,) if mode == "not" else (None, False, True)):
+                    n = 1 if mode == "not" else 2
+                    rows = [row(sets["str"], (i + 1) % 3, i, kw=[[{"s": nm}, {"i": 5 + i + 10 * j}] for j, nm in enumerate(keys)]) for i in range(n)]
+                    c = {"seed": 1, "fmt": fmt, "kw": True, "layout": "single" if mode == "not" else mode, "batch": mode != "not",
+                         "e2e": fmt in ("A", "PM") and lb is None, "calls": [rows, rows[:1]]}
+                    if lb is not None:
+                        c["learn_batch"] = lb
+                    cs.append(c)
     seen, out = set(), []
     for c in cs:
         k = json.dumps(c, sort_keys=True)
